@@ -105,6 +105,19 @@ def check_cells(g, case, cells):
         raise Violation(f"cell2coord differs from the cell centre: "
                         f"{xy[:3].tolist()} vs {ex[:3].tolist()}, "
                         f"{ey[:3].tolist()} geometry {case_geom(case)}")
+    # one cell / one point at a time, scalars and plain lists
+    c0 = int(cells[len(cells) // 2])
+    one = g.cell2coord(c0)
+    if one.shape != (1, 2) or not np.array_equal(
+            one[0], xy[len(cells) // 2]):
+        raise Violation(f"cell2coord({c0}) (scalar) = {one.tolist()} "
+                        "differs from the vector call")
+    if g.coord2cell(one[0].tolist())[0] != c0 or \
+            g.coord2cell([one[0].tolist()])[0] != c0 or \
+            g.cell2rowcol(c0).tolist() != [list(divmod(c0, nc))] or \
+            g.cell2rowcol([c0]).tolist() != [list(divmod(c0, nc))]:
+        raise Violation(f"scalar / list forms disagree for cell {c0}; "
+                        f"geometry {case_geom(case)}")
     back = g.coord2cell(xy)
     if not np.array_equal(back, cells):
         i = int(np.argmax(back != cells))
